@@ -26,6 +26,7 @@ import (
 // genLogK generates an operation log by running the generator against Engine K.
 func genLogK(rt *rapid.T, w Weights, minOps, maxOps int, drivePct int) (*History, *Gen) {
 	b := SharedBase()
+	w.MsgFaultPct = 0 // bank faults are injected at keeper level only; application-level replays would diverge
 	g := NewGen(w)
 	wd := NewWorld(b)
 	h := NewHistory(wd)
